@@ -77,9 +77,10 @@ Definition tls13_only_rule (T : tables) (versions curves : list val) : bool :=
   then sub_tab curves (t_tls13_groups T) else true.
 
 (* validate() evaluates that rule on `versions` BEFORE clipping it; the object is stable when the rule also
-   holds for the clipped list *)
+   holds for the clipped list.  Since 0b9340a the lower clip bound is never above (3,3), which makes every
+   accepted object stable (clip_stable_ok); under f81c02a alone (bound = minVersion) it was not. *)
 Definition clip_stable (T : tables) (v : list (list val)) (c : scalars) : bool :=
-  match filter_range (minVersion c) (maxVersion c) (nth F_versions v []) with
+  match filter_range (clip_lo (minVersion c)) (maxVersion c) (nth F_versions v []) with
   | Ok y => tls13_only_rule T y (nth F_eccCurves v [])
   | Err _ => true
   end.
@@ -217,7 +218,7 @@ Proof.
                           (forall a0 a1 a3, cstep_versions (V a0 a1 a3 y4) c = Ok (V a0 a1 a3 y4)))
                \/ exists e, cstep_versions (V x0 x1 x3 x4) c = Err e).
   { unfold clip_stable in CS. unfold cstep_versions. cbn [nth V F_versions F_eccCurves lupd] in *.
-    destruct (filter_range (minVersion c) (maxVersion c) x4) as [l|e] eqn:FL; [|right; exists e; reflexivity].
+    destruct (filter_range (clip_lo (minVersion c)) (maxVersion c) x4) as [l|e] eqn:FL; [|right; exists e; reflexivity].
     left. exists l. split; [reflexivity|]. split; [apply ecdh_tail_rule; exact CS|].
     intros. rewrite (filter_range_fix _ _ _ _ FL). reflexivity. }
   destruct SV as [[y4 [SV [Hy SVfix]]]|[e SV]]; rewrite SV in H; [|discriminate H].
@@ -258,7 +259,7 @@ Proof.
 Qed.
 End Core.
 
-Lemma cvalidate_idem T I v c v' :
+Lemma cvalidate_idem_stable T I v c v' :
   List.length v = NF -> clip_stable T v c = true -> cvalidate T I v c = Ok v' -> cvalidate T I v' c = Ok v'.
 Proof.
   intros Len CS H.
@@ -267,11 +268,16 @@ Proof.
   exact (idem_V T I c x2 x5 x6 x7 x8 x9 x10 x11 x12 x13 x14 x15 x16 x17 x18 x19 x20 x21 x0 x1 x3 x4 v' CS H).
 Qed.
 
-(* clip_stable holds whenever TLS 1.2 or lower stays enabled (minVersion <= (3,3)) *)
-Lemma clip_stable_tls12 T I v c v' :
-  List.length v = NF -> ver_le (minVersion c) (3, 3) = true -> cvalidate T I v c = Ok v' -> clip_stable T v c = true.
+Lemma clip_lo_le c : ver_le (clip_lo c) (3, 3) = true.
 Proof.
-  intros Len Lo H.
+  unfold clip_lo. destruct (ver_lt (3, 3) c) eqn:E; [reflexivity|]. unfold ver_le. rewrite E. reflexivity.
+Qed.
+
+(* every accepted object is stable: the lower clip bound never exceeds (3,3) *)
+Lemma clip_stable_ok T I v c v' :
+  List.length v = NF -> cvalidate T I v c = Ok v' -> clip_stable T v c = true.
+Proof.
+  intros Len H. pose proof (clip_lo_le (minVersion c)) as Lo.
   destruct v as [|x0 [|x1 [|x2 [|x3 [|x4 [|x5 [|x6 [|x7 [|x8 [|x9 [|x10 [|x11 [|x12 [|x13 [|x14 [|x15 [|x16
                [|x17 [|x18 [|x19 [|x20 [|x21 [|x22 r]]]]]]]]]]]]]]]]]]]]]]]; try discriminate Len.
   change [x0; x1; x2; x3; x4; x5; x6; x7; x8; x9; x10; x11; x12; x13; x14; x15; x16; x17; x18; x19; x20; x21]
@@ -286,36 +292,33 @@ Proof.
   rewrite dh_unfold in ED. apply bind_ok in ED. destruct ED as [[] [_ ED]]. apply bind_ok in ED. destruct ED as [[] [ET _]].
   apply ecdh_tail_rule in ET.
   unfold clip_stable. cbn [nth V F_versions F_eccCurves].
-  destruct (filter_range (minVersion c) (maxVersion c) x4) as [y|e] eqn:FL; [|reflexivity].
+  destruct (filter_range (clip_lo (minVersion c)) (maxVersion c) x4) as [y|e] eqn:FL; [|reflexivity].
   unfold tls13_only_rule in *.
   rewrite (filter_range_in _ _ _ _ 3 3 FL), (filter_range_in _ _ _ _ 3 4 FL).
   destruct (val_in (VPair 3 4) x4) eqn:V34; cbn [andb]; [|rewrite andb_false_r; reflexivity].
-  destruct (in_range (minVersion c) (maxVersion c) 3 4) eqn:R34; [|rewrite andb_false_r; reflexivity].
+  destruct (in_range (clip_lo (minVersion c)) (maxVersion c) 3 4) eqn:R34; [|rewrite andb_false_r; reflexivity].
   rewrite (in_range_34_33 _ _ R34 Lo), andb_true_r.
   destruct (val_in (VPair 3 3) x4); cbn [negb andb] in *; [reflexivity|exact ET].
 Qed.
 
+Lemma cvalidate_idem T I v c v' :
+  List.length v = NF -> cvalidate T I v c = Ok v' -> cvalidate T I v' c = Ok v'.
+Proof.
+  intros Len H. eapply cvalidate_idem_stable; [exact Len| |exact H]. eapply clip_stable_ok; eassumption.
+Qed.
+
 (* ---- idempotence of the by-reference model ---------------------------------------------------- *)
 Lemma validate_idempotent_heap T I h s h1 s1 :
-  wf h s = true -> clip_stable T (lists h s) (sc s) = true -> validate T I h s = (h1, Ok s1) ->
+  wf h s = true -> validate T I h s = (h1, Ok s1) ->
   exists h2 s2, validate T I h1 s1 = (h2, Ok s2) /\ view h2 s2 = view h1 s1.
 Proof.
-  intros W CS H.
+  intros W H.
   pose proof (validate_refines T I h s W) as R. rewrite H in R. destruct R as [R1 [R2 R3]].
   pose proof (validate_refines T I h1 s1 R3) as R'.
   assert (Len : List.length (lists h s) = NF) by (rewrite lists_length; apply (wf_length h s W)).
-  pose proof (cvalidate_idem T I _ _ _ Len CS R1) as Id. rewrite <- R2 in Id.
+  pose proof (cvalidate_idem T I _ _ _ Len R1) as Id. rewrite <- R2 in Id.
   destruct (validate T I h1 s1) as [h2 [s2|e]].
   - exists h2, s2. split; [reflexivity|]. destruct R' as [A [B _]]. rewrite Id in A. injection A as A.
     unfold view. rewrite <- A, B. reflexivity.
   - rewrite Id in R'. discriminate R'.
-Qed.
-
-Lemma validate_idempotent_heap_tls12 T I h s h1 s1 :
-  wf h s = true -> ver_le (minVersion (sc s)) (3, 3) = true -> validate T I h s = (h1, Ok s1) ->
-  exists h2 s2, validate T I h1 s1 = (h2, Ok s2) /\ view h2 s2 = view h1 s1.
-Proof.
-  intros W Lo H. eapply validate_idempotent_heap; [exact W| |exact H].
-  pose proof (validate_refines T I h s W) as R. rewrite H in R. destruct R as [R1 _].
-  eapply clip_stable_tls12; [|exact Lo|exact R1]. rewrite lists_length. apply (wf_length h s W).
 Qed.
